@@ -21,6 +21,7 @@ theorem stepItem_keepR (hd : cfg.disk = true) (ho : o.owP = false) (r : Run N K 
     (k : K) (v : Rec N) (h : get? k r.st.recs = some v) :
     get? k (stepItem cfg L o fail r it).st.recs = some v := by
   apply stepItem_induct cfg L o fail (fun r' => get? k r'.st.recs = some v) r it h
+  · intro hq; exact hq
   · intro c r' hr'; rw [callEst_st]; exact hr'
   · intro _ r' hr'
     rcases saveStrat_st cfg it (strategyFit L it) r' with e | ⟨_, e⟩ <;> rw [e]
@@ -49,6 +50,7 @@ theorem stepItem_keepS (hd : cfg.disk = true) (ho : o.owF = false) (r : Run N K 
     (k : K) (v : SRec W) (h : get? k r.st.strats = some v) :
     get? k (stepItem cfg L o fail r it).st.strats = some v := by
   apply stepItem_induct cfg L o fail (fun r' => get? k r'.st.strats = some v) r it h
+  · intro hq; exact hq
   · intro c r' hr'; rw [callEst_st]; exact hr'
   · intro hb r' hr'
     have hne : k ≠ cfg.skey it.s it.d it.fold := by
@@ -92,19 +94,32 @@ theorem skip_of_complete (hd : cfg.disk = true) (hP : o.owP = false) (hF : o.owF
     Bool.and_true]
   cases hpot : o.pot <;> cases hs : o.saveF <;> simp_all
 
+/-- the parts of a run state a skipped iteration cannot change (everything but the registry) -/
+def SameWork (r r' : Run N K W) : Prop :=
+  r'.st.recs = r.st.recs ∧ r'.st.strats = r.st.strats ∧ r'.st.master = r.st.master ∧ r'.log = r.log ∧
+  r'.wrRecs = r.wrRecs ∧ r'.wrStrats = r.wrStrats ∧ r'.err = r.err ∧ r'.calls = r.calls
+
+theorem completeItem_congr (st st' : St N K W) (e1 : st'.recs = st.recs) (e2 : st'.strats = st.strats)
+    (it : Item N) (h : CompleteItem cfg o st it) : CompleteItem cfg o st' it := by
+  unfold CompleteItem at h ⊢; rw [e1, e2]; exact h
+
 theorem runItems_noop (hd : cfg.disk = true) (hP : o.owP = false) (hF : o.owF = false)
     (items : List (Item N)) (r : Run N K W) (hc : ∀ it ∈ items, CompleteItem cfg o r.st it) :
-    runItems cfg L o fail items r = r := by
-  induction items with
-  | nil => rfl
+    SameWork r (runItems cfg L o fail items r) := by
+  induction items generalizing r with
+  | nil => exact ⟨rfl, rfl, rfl, rfl, rfl, rfl, rfl, rfl⟩
   | cons a t ih =>
     rw [runItems_cons]
-    have : stepItem cfg L o fail r a = r := by
+    have h1 : SameWork r (stepItem cfg L o fail r a) := by
       rw [stepItem_eq]
       split
-      · rfl
-      · rw [skip_of_complete cfg o hd hP hF r.st a (hc a List.mem_cons_self)]; rfl
-    rw [this]
-    exact ih (fun it hit => hc it (List.mem_cons_of_mem _ hit))
+      · exact ⟨rfl, rfl, rfl, rfl, rfl, rfl, rfl, rfl⟩
+      · rw [skip_of_complete cfg o hd hP hF r.st a (hc a List.mem_cons_self)]
+        exact ⟨rfl, rfl, rfl, rfl, rfl, rfl, rfl, rfl⟩
+    have h2 := ih (stepItem cfg L o fail r a)
+      (fun it hit => completeItem_congr cfg o r.st _ h1.1 h1.2.1 it (hc it (List.mem_cons_of_mem _ hit)))
+    obtain ⟨a1, a2, a3, a4, a5, a6, a7, a8⟩ := h1
+    obtain ⟨b1, b2, b3, b4, b5, b6, b7, b8⟩ := h2
+    exact ⟨b1.trans a1, b2.trans a2, b3.trans a3, b4.trans a4, b5.trans a5, b6.trans a6, b7.trans a7, b8.trans a8⟩
 
 end SkVerif.Orch.Lem
